@@ -230,7 +230,8 @@ theorem Date.wf_spec {d : Date} (h : d.wf = true) :
 theorem descr_spec {ws : List Bytes} (hne : ws ≠ []) (hws : ∀ w ∈ ws, word isLowerB w = true) :
     ∃ w r, joinWith 0x20 ws = w ++ r ∧ w ≠ [] ∧ (∀ c ∈ w, isLower c = true) ∧
       (∀ c ∈ r, textByte c = true ∧ c < 0x80) ∧ (r = [] ∨ ∃ r', r = 0x20 :: r') ∧
-      (∀ c ∈ joinWith 0x20 ws, c < 0x80 ∧ c ≠ 0x3A) ∧ trimSpace (joinWith 0x20 ws) = joinWith 0x20 ws := by
+      (∀ c ∈ joinWith 0x20 ws, c < 0x80 ∧ c ≠ 0x3A) ∧ trimSpace (joinWith 0x20 ws) = joinWith 0x20 ws ∧
+      trimRightFunc (joinWith 0x20 ws) = joinWith 0x20 ws := by
   obtain ⟨w, ws', rfl⟩ := List.exists_cons_of_ne_nil hne
   obtain ⟨r, hr, hr'⟩ := joinWith_first 0x20 w ws'
   have hlow : ∀ x ∈ w :: ws', ∀ c ∈ x, isLower c = true := fun x hx c hc => by
@@ -246,7 +247,7 @@ theorem descr_spec {ws : List Bytes} (hne : ws ≠ []) (hws : ∀ w ∈ ws, word
     rcases mem_joinWith hc with h | ⟨x, hx, hcx⟩
     · exact Or.inl h
     · exact Or.inr (hlow x hx c hcx)
-  refine ⟨w, r, hr, hne' w (by simp), hlow w (by simp), ?_, hr', ?_, ?_⟩
+  refine ⟨w, r, hr, hne' w (by simp), hlow w (by simp), ?_, hr', ?_, ?_, ?_⟩
   · intro c hc
     rcases hall c (by rw [hr]; simp [hc]) with h | h
     · rw [h]; exact ⟨by decide, by decide⟩
@@ -270,6 +271,10 @@ theorem descr_spec {ws : List Bytes} (hne : ws ≠ []) (hws : ∀ w ∈ ws, word
         exact this.1
       rw [he, hc']
       exact trimSpace_id c m' d hcl.1.1.1.1.1.1.2 hcl.2 hdl.1.1.1.1.1.1.2 hdl.2
+  · obtain ⟨m, d, x, hx, hd, he⟩ := joinWith_last 0x20 (w :: ws') (by simp) hne'
+    have hdl := lf d (hlow x hx d hd)
+    rw [he]
+    exact trimRightFunc_id m d hdl.1.1.1.1.1.1.2 hdl.2
 
 /-- **A header line**: `date ' ' descr LF` lexes to Date, Text, Newline — exactly, whatever
     follows the line feed. -/
@@ -278,7 +283,7 @@ theorem lex_header_line (C : Classes) (hC : ClassesOk C = true) {z : Z} (hz : LS
     {rest : Bytes} (ha : z.after = t.header ++ LF :: rest) :
     lexS C z = t.headerToks z.line z.before.length ++ lexS C (jump z (t.header ++ [LF]) rest 1) := by
   obtain ⟨h0, hdb, _⟩ := Date.wf_spec hd
-  obtain ⟨w, r, hwr, hwne, hwl, hrt, hr', hnc, htrim⟩ := descr_spec hne hws
+  obtain ⟨w, r, hwr, hwne, hwl, hrt, hr', hnc, htrim, htrimR⟩ := descr_spec hne hws
   have hdescr : t.descr = w ++ r := hwr
   have ha1 : z.after = t.date.print ++ (0x20 :: (t.descr ++ LF :: rest)) := by
     rw [ha]; simp [Tx.header]
@@ -306,7 +311,7 @@ theorem lex_header_line (C : Classes) (hC : ClassesOk C = true) {z : Z} (hz : LS
       have := scanInLineAt_text C hZ' hwne hwl (fun c hc => classesOk_lower hC (hwl c hc)) hrt hrs
         (StopsL.lf _ _)
         (by rw [hZ]; exact looksLikeAccount_noColon _ _ hnc (Or.inr ⟨_, rfl⟩))
-        (by rw [← hdescr]; exact htrim)
+        (by rw [← hdescr]; exact htrim) (by rw [← hdescr]; exact htrimR)
       rw [← hdescr] at this
       exact this)
   simp only [List.singleton_append] at h2
